@@ -1,4 +1,5 @@
 import Dashu.Proofs.NT.ModHom
+import Dashu.Proofs.NT.ModPowLarge
 /-
   C13 — Reduced-ring arithmetic is the homomorphic image of integer arithmetic.
 
@@ -172,9 +173,11 @@ theorem hom_sqr (W : Nat) (r : Ring) (hwf : r.WF W) (a : Int) :
       push_cast; exact Int.ModEq.mul (res_modEq hm a) (res_modEq hm a))]
   exact res_cast hm _
 
-/-- `pow` in single- and double-word rings: `a^e mod m` for **every** exponent `e` (any number of
-    words), with `m = 1` included (`pow(0)` is `0`, the only residue). -/
-theorem hom_pow_word_rings (W : Nat) (r : Ring) (hwf : r.WF W) (hk : r.kind ≠ .large) (a : Int) (e : Nat) :
+/-- `pow`: `a^e mod m` for **every** exponent `e` (any number of words) in every ring — single- and
+    double-word rings by square-and-multiply over the words of `e` (`pow_word`, `pow_helper`),
+    multi-word rings by the windowed loop of `large::pow_nontrivial` (table of odd powers, window
+    length from `choose_pow_window_len`); `m = 1` included (`pow(0)` is `0`, the only residue). -/
+theorem hom_pow (W : Nat) (r : Ring) (hwf : r.WF W) (a : Int) (e : Nat) :
     Valid r ((reduceInt W r a).pow W e).raw ∧
       (((reduceInt W r a).pow W e).residue : Int) = (a ^ e) % (r.m : Int) := by
   have hm := hwf.mpos
@@ -183,7 +186,7 @@ theorem hom_pow_word_rings (W : Nat) (r : Ring) (hwf : r.WF W) (hk : r.kind ≠ 
   have hd : (reduceInt W r a).pow W e = ⟨r, ((res r.m a ^ e) % r.m) * 2 ^ r.k⟩ := by
     unfold Elem.pow powRaw; rw [hra, ha]
     cases hkk : r.kind with
-    | large => exact absurd hkk hk
+    | large => simp only []; rw [powL_eq hwf (res_lt hm a)]
     | single => simp only []; rw [powSD_eq hwf (res_lt hm a)]
     | double => simp only []; rw [powSD_eq hwf (res_lt hm a)]
   rw [hd]
@@ -192,30 +195,11 @@ theorem hom_pow_word_rings (W : Nat) (r : Ring) (hwf : r.WF W) (hk : r.kind ≠ 
       push_cast; exact Int.ModEq.pow e (res_modEq hm a))]
   exact res_cast hm _
 
-/-- multi-word rings: the exponents 0 and 1 (the two shortcuts of `large::pow`).
-    Full statement (`hom_pow_full`: the windowed loop `large::pow_nontrivial` equals `a^e mod m` for
-    all `e ≥ 2`) is not proved yet; the mirrored loop `powWindowLoop` is executed and compared with
-    `a^e mod m` on every driver call.
-    -- theorem hom_pow_full (hwf : r.WF W) (a : Int) (e : Nat) :
-    --   (((reduceInt W r a).pow W e).residue : Int) = (a ^ e) % (r.m : Int) -/
-theorem hom_pow_large_partial (W : Nat) (r : Ring) (hwf : r.WF W) (hk : r.kind = .large) (a : Int)
-    (e : Nat) (he : e ≤ 1) :
-    Valid r ((reduceInt W r a).pow W e).raw ∧
-      (((reduceInt W r a).pow W e).residue : Int) = (a ^ e) % (r.m : Int) := by
-  have hm := hwf.mpos
-  have ha := reduceInt_raw hwf a
-  have hra := (Dashu.Props.C13.reduce_spec W r hwf a).2.2.2.2
-  have hd : (reduceInt W r a).pow W e = ⟨r, ((res r.m a ^ e) % r.m) * 2 ^ r.k⟩ := by
-    unfold Elem.pow powRaw; rw [hra, ha, hk]; simp only []
-    unfold powL
-    rcases Nat.le_one_iff_eq_zero_or_eq_one.1 he with h | h
-    · subst h; simp [oneRaw_eq hwf]
-    · subst h; simp [Nat.mod_eq_of_lt (res_lt hm a)]
-  rw [hd]
-  refine ⟨valid_of_lt (Nat.mod_lt _ hm), ?_⟩
-  rw [residue_of_raw, mod_eq_res hm _ (y := a ^ e) (by
-      push_cast; exact Int.ModEq.pow e (res_modEq hm a))]
-  exact res_cast hm _
+/-- non-vacuity: a 3-word modulus gives a well-formed multi-word ring (the hypothesis of `hom_pow`),
+    and a small instance of the windowed loop evaluates to the expected residue -/
+example : ∃ r, Ring.new 64 0 (2 ^ 190 + 7) = .ok r ∧ r.kind = .large ∧ r.WF 64 ∧
+    ((reduceInt 64 r 3).pow 64 21).residue = 3 ^ 21 % (2 ^ 190 + 7) :=
+  ⟨_, rfl, rfl, Ring.new_wf (id := 0) (m := 2 ^ 190 + 7) (by decide) rfl, by decide +kernel⟩
 
 /-- `inv`: `Some(x)` exactly when `gcd(a, m) = 1`, and then `x` is `Valid` with `a·x ≡ 1 (mod m)`. -/
 theorem inv_spec (W : Nat) (r : Ring) (hwf : r.WF W) (a : Int) :
